@@ -41,6 +41,15 @@ Theorem observed_needs_gt66_distinct : forall (ops : list op) (e : entry),
 Proof. exact observed_needs_gt66_distinct_run. Qed.
 Print Assumptions observed_needs_gt66_distinct.
 
+(** Per bridge deployment: a claim takes effect only at a tally at which it names the latest compass
+    id (0 = no compass id recorded yet). *)
+Theorem applied_only_of_current_deployment : forall (ops : list op) (e : entry),
+  In e (applied (run ops)) ->
+  exists ops1 ops2, ops = ops1 ++ Tally :: ops2 /\
+    (compass (run ops1) = 0 \/ c_compass (e_claim e) = compass (run ops1)).
+Proof. exact applied_of_current_deployment_run. Qed.
+Print Assumptions applied_only_of_current_deployment.
+
 (** Between resets at most one claim per event nonce takes effect. *)
 Theorem one_claim_per_nonce : forall (ops : list op) (e1 e2 : entry),
   In e1 (applied (run ops)) -> In e2 (applied (run ops)) ->
